@@ -356,6 +356,11 @@ def call_real(c, workdir):
     if c["mode"] == "e2e":
         out, raised, msg = run_e2e(c, prot, rows, workdir)
     else:
+        if c["idx"] % 3 == 1 and len(rows) >= 2:
+            # the same Proteins object has already served another peptide table (a two-step history): first half of the rows,
+            # then only the targets; the results of these calls are not judged, the object must not remember them
+            run_direct(c, prot, rows[: len(rows) // 2])
+            run_direct(c, prot, [r for r in rows if r["tgt"]] or rows[:1])
         out, raised, msg = run_direct(c, prot, rows)
     tr = {"mode": c["mode"], "rows": rows, "raised": raised, "message": msg, "out": out, "kinds": c["kinds"]}
     tr.update(desc)
